@@ -131,6 +131,51 @@ def total(R, ctx):
     R.require(rid, "floor", n >= 25, "", "%d serialize_* methods (floor 25)" % n)
 
 
+INT_BITS = {"i8": (8, True), "i16": (16, True), "i32": (32, True), "i64": (64, True), "i128": (128, True), "isize": (64, True),
+            "u8": (8, False), "u16": (16, False), "u32": (32, False), "u64": (64, False), "u128": (128, False), "usize": (64, False)}
+
+
+def cast_is_lossy(src, dst):
+    if src in INT_BITS and dst in INT_BITS:
+        sb, ss = INT_BITS[src]
+        db, ds = INT_BITS[dst]
+        if ss == ds:
+            return db < sb
+        if not ss and ds:      # unsigned -> signed needs a strictly wider target
+            return db <= sb
+        return True            # signed -> unsigned loses negatives
+    if src in INT_BITS and dst == "f32":
+        return True
+    if src in ("f64", "f32") and dst in INT_BITS:
+        return True
+    if src == "f64" and dst == "f32":
+        return True
+    return False
+
+
+def casts(R, ctx):
+    rid = "C14.cast"
+    lib = ctx.lib
+    R.rule(rid, "in the data serializer, numeric `as` casts never wrap or truncate: integers are only widened or converted to f64 (the nearest "
+                "double is the documented result); u64 -> i64, i64 -> u64, any narrowing and float -> int casts are violations")
+    n = 0
+    R.ob(rid, "detector|control", cast_is_lossy("u64", "i64") and not cast_is_lossy("u64", "f64") and not cast_is_lossy("u32", "i64"), "", "positive/negative control", nontrivial=False)
+    for f in lib.fn_list:
+        if "process::expression_serializer::" not in f["path"] or not thir.body_of(f) or "::test" in f["path"]:
+            continue
+        for x in thir.walk(thir.body_of(f)):
+            if x.get("k") != "Cast":
+                continue
+            src = lib.types[x["e"]["t"]].get("prim")
+            dst = lib.types[x["t"]].get("prim")
+            if not src or not dst:
+                continue
+            n += 1
+            R.ob(rid, "%s|%s-as-%s" % (f["path"].split("::")[-1], src, dst), not cast_is_lossy(src, dst), ctx.where(f, x.get("ln")),
+                 "`%s as %s` %s" % (src, dst, "wraps/truncates: large or negative integers of the document change value" if cast_is_lossy(src, dst) else "is value-preserving up to the nearest double"))
+    R.require(rid, "floor", n >= 3, "", "%d numeric casts in the serializer (floor 3)" % n)
+
+
 def run(R, ctx):
     R.explanation = (
         "Guard-before-act rule on every place where a run-time string becomes a table key or field name, the keyword table of "
@@ -141,3 +186,4 @@ def run(R, ctx):
     ident(R, ctx)
     keyword(R, ctx)
     total(R, ctx)
+    casts(R, ctx)
